@@ -159,6 +159,21 @@ def run(chk: Check, repo: Repo) -> None:
         okc = bool(rets_) and all(r_.value is not None and superset(r_.value) for r_ in rets_)
         chk.ob("group-addresses-override-is-superset", f_.site(), okc, f"{cname}.group_addresses(): every return is super().group_addresses() or a union (|) containing it: {[ast.unparse(r_.value) for r_ in rets_]}", key=f"ga-overrides|{cname}")
 
+    # (a3) the address set of a device is a function of the device alone: async_add indexes it and async_remove
+    # un-indexes it, so an address set that depends on the registry (or on any other shared state reached through
+    # self.xknx) makes the two disagree for some add/remove order
+    dev = repo.cls("xknx.devices.device", "Device")
+    n_ga = 0
+    for c in [dev] + repo.subclasses(dev, strict=True):
+        for mname in ("group_addresses", "has_group_address", "_iter_remote_values"):
+            f_ = c.methods.get(mname)
+            if f_ is None:
+                continue
+            n_ga += 1
+            shared = sorted({ast.unparse(x) for x in ast.walk(f_.node) if isinstance(x, ast.Attribute) and ast.unparse(x).startswith("self.xknx")})
+            chk.ob("device-addresses-depend-on-the-device-only", f_.site(), not shared, f"{f_.qualname} reads {shared or 'no shared state'}" + (" — the address index built at registration and the one torn down at removal can differ" if shared else ""), key=f"ga-pure|{f_.qualname}")
+    chk.floor("device address methods examined", n_ga, 15)
+
     # (b) bounded histories over abstract containers
     gas = {"d1": ("g1", "g2"), "d2": ("g2", "g3"), "d3": ("g2",)}
     G = {g: Obj("GroupAddress", g) for g in ("g1", "g2", "g3", "g4")}
